@@ -37,6 +37,7 @@ type mutant struct {
 	Construct string   `json:"construct_contains"`
 	Note      string   `json:"note,omitempty"`
 	Edits     []edit   `json:"edits,omitempty"` // further edits (same or other files), all must apply
+	Control   bool     `json:"control,omitempty"` // behaviour-preserving edit: every check must stay silent
 }
 
 type edit struct {
@@ -56,6 +57,10 @@ func main() {
 	selftest := flag.Bool("selftest", false, "run the self-validation corpus for -prop (or all) and report")
 	flag.Parse()
 
+	if *prop == "matrix" {
+		// development aid: one load, every property; prints the failing obligations per property (no evidence)
+		os.Exit(runMatrix(*repo))
+	}
 	if *worker != "" {
 		runWorker(*prop, *repo, *worker, *overlay)
 		return
@@ -85,7 +90,21 @@ func analyse(prop, repo, ctx string, ov map[string][]byte) (out workerOut) {
 	arch, graph := parts[0], parts[1]
 	p := core.Load(core.LoadOpts{Dir: repo, GOARCH: arch, Overlay: ov, CHA: graph == "cha"})
 	rep := core.NewReport(prop)
-	rules.Registry[prop](p, rep)
+	func() {
+		// A vacuity guard ("the rule no longer finds the instances confirmed by hand") is an UNDECIDED obligation:
+		// the rule cannot vouch for the clause, so the check fails (exit 1) and names what disappeared. Unresolved
+		// roles, load errors and analyser panics remain tool failures (exit 2).
+		defer func() {
+			if r := recover(); r != nil {
+				if tf, ok := r.(*core.ToolFailure); ok && strings.HasPrefix(tf.Msg, "vacuity guard:") {
+					rep.Unk("VAC", "vacuity:"+vacKey(tf.Msg), "every rule still finds the instances it was confirmed on", "", tf.Msg+" - a construct the rule ranges over has disappeared; the remaining rules of this property were not evaluated")
+					return
+				}
+				panic(r)
+			}
+		}()
+		rules.Registry[prop](p, rep)
+	}()
 	edges := 0
 	for _, n := range p.CG.Nodes {
 		edges += len(n.Out)
@@ -358,6 +377,14 @@ func runSelftest(prop, repo, verif string) map[string]any {
 			case out.Failure != "":
 				r.status = "tool-failure"
 				r.detail = out.Failure
+			case m.Control:
+				r.status = "silent-ok"
+				for _, ob := range out.Obls {
+					if ob.Status != core.Discharged {
+						r.status = "false-alarm"
+						r.detail += ob.Rule + " [" + ob.Construct + "] "
+					}
+				}
 			default:
 				r.status = "missed"
 				for _, ob := range out.Obls {
@@ -408,10 +435,72 @@ func runSelftestCmd(prop, repo, verif string) int {
 		st := runSelftest(p, repo, verif)
 		for _, r := range st["results"].([]map[string]string) {
 			fmt.Printf("%s %-28s %-13s %s\n", p, r["id"], r["status"], r["detail"])
-			if r["status"] == "missed" || r["status"] == "tool-failure" {
+			if r["status"] == "missed" || r["status"] == "tool-failure" || r["status"] == "false-alarm" {
 				rc = 1
 			}
 		}
 	}
 	return rc
+}
+
+func runMatrix(repo string) int {
+	defer func() {
+		if r := recover(); r != nil {
+			fmt.Printf("TOOL-FAILURE %v\n", r)
+			os.Exit(2)
+		}
+	}()
+	p := core.Load(core.LoadOpts{Dir: repo, GOARCH: "amd64"})
+	var props []string
+	for k := range rules.Registry {
+		props = append(props, k)
+	}
+	sort.Strings(props)
+	rc := 0
+	for _, pr := range props {
+		func() {
+			defer func() {
+				if r := recover(); r != nil {
+					msg := fmt.Sprint(r)
+					if tf, ok := r.(*core.ToolFailure); ok {
+						msg = tf.Msg
+					}
+					if strings.HasPrefix(msg, "vacuity guard:") {
+						fmt.Printf("%s UNDECIDED VAC [vacuity:%s] %s\n", pr, vacKey(msg), msg)
+						if rc == 0 {
+							rc = 1
+						}
+						return
+					}
+					fmt.Printf("%s TOOL-FAILURE %s\n", pr, msg)
+					rc = 2
+				}
+			}()
+			rep := core.NewReport(pr)
+			rules.Registry[pr](p, rep)
+			for _, ob := range rep.Sorted() {
+				if ob.Status != core.Discharged {
+					fmt.Printf("%s %s %s [%s] %s\n", pr, strings.ToUpper(ob.Status), ob.Rule, ob.Construct, ob.Pos)
+					if rc == 0 {
+						rc = 1
+					}
+				}
+			}
+		}()
+	}
+	return rc
+}
+
+func vacKey(msg string) string {
+	// stable key: the text up to the first digit (counts vary)
+	m := strings.TrimPrefix(msg, "vacuity guard: ")
+	for i, c := range m {
+		if c >= '0' && c <= '9' {
+			return strings.TrimSpace(m[:i])
+		}
+	}
+	if len(m) > 60 {
+		m = m[:60]
+	}
+	return m
 }
